@@ -5,6 +5,7 @@ package actor
 import (
 	"context"
 	"errors"
+	"time"
 
 	gerrors "github.com/tochemey/goakt/v4/errors"
 	"github.com/tochemey/goakt/v4/eventstream"
@@ -22,6 +23,7 @@ func init() {
 	vRegister("vC18_actor", vC18_actor)
 	vRegister("vC18_actor5", vC18_actor5)
 	vRegister("vC18_remote", vC18_remote)
+	vRegister("vC18_remoteLeaving", vC18_remoteLeaving)
 	vRegister("vC18_batch", vC18_batch)
 }
 
@@ -143,8 +145,12 @@ func vC18_message(kind int) any {
 		return new(PoisonPill) // control, system message
 	case 5:
 		return new(PausePassivation) // control, system message
+	case 7:
+		return NewPanicSignal(&vC18Msg{tag: 8}, "boom", time.Time{}) // control, system message (an escalated failure)
+	case 8:
+		return &commands.AsyncResponse{} // system message, user mailbox
 	}
-	return &commands.AsyncRequest{} // system message, user mailbox
+	return &commands.AsyncRequest{} // system message, user mailbox (the envelope of ReceiveContext.Request)
 }
 
 func vC18_local() {
@@ -169,7 +175,7 @@ func vC18_local() {
 	kind := vCase("message")
 	msg := vC18_message(kind)
 	exempt := kind == 1 || kind == 2 || kind == 3
-	control := kind == 2 || kind == 3 || kind == 4 || kind == 5
+	control := kind == 2 || kind == 3 || kind == 4 || kind == 5 || kind == 7
 	system := kind != 0
 	// earlier traffic: 0..2 messages already wait in the bounded mailbox (2 = full)
 	fill := vChoose("queued", 3)
@@ -311,6 +317,50 @@ func vC18_remote() {
 		got := target.mailbox.Dequeue()
 		vAssert(got != nil && got.message == any(want), "the delivered message is the decoded payload")
 		vCover("delivered")
+	}
+	vCover("end")
+}
+
+// a remote tell landing while the local target is on its way out: still in the tree and still flagged running, but stopping
+// (Shutdown in progress), passivating, or suspended -- "not running" for every sender, local or remote
+func vC18_remoteLeaving() {
+	sys := vC18_system()
+	parent := vC18_pid(sys, "parent")
+	target := vC18_pid(sys, "target")
+	vAssert(sys.actors.addRootNode(parent) == nil, "harness: root")
+	vAssert(sys.actors.addNode(parent, target) == nil, "harness: node")
+	remoteSender := address.New("peer", "sys", "otherhost", 9001)
+	tag := vChoose("payload", 4)
+	wire := &internalpb.RemoteMessage{Receiver: target.address.String(), Message: []byte{byte(tag)}}
+	wantSender := sys.noSender.address
+	if vCase("hasSender") == 1 {
+		wire.Sender = remoteSender.String()
+		wantSender = remoteSender
+	}
+	want := sys.remoting.Serializer(nil).(*vC18Serializer).msgs[tag]
+	// any non-empty combination of the three flags (bit mask 1..7); the running flag stays set
+	mask := vChoose("leavingFlags", 8)
+	vAssume(mask >= 1)
+	st := uint32(runningState)
+	if mask&1 != 0 {
+		st |= uint32(stoppingState)
+	}
+	if mask&2 != 0 {
+		st |= uint32(passivatingState)
+	}
+	if mask&4 != 0 {
+		st |= uint32(suspendedState)
+	}
+	target.state.Store(st)
+	vAssert(!target.IsRunning(), "harness: such an actor does not count as running")
+	sys.deliverRemoteTellMessage(context.Background(), wire)
+	vC18_checkLetter(sys, sys.systemGuardian, wantSender, target.address, want, "")
+	vAssert(target.mailbox.IsEmpty() && target.systemMailbox.IsEmpty() && vC18_scheduled == 0, "a message for an actor that is stopping/passivating/suspended is not enqueued as well")
+	if mask == 1 {
+		vCover("stopping")
+	}
+	if mask == 4 {
+		vCover("suspended")
 	}
 	vCover("end")
 }
